@@ -10,6 +10,8 @@ import GlotaranProofs.Lemmas.C02Length
 import GlotaranProofs.Lemmas.C02Bij
 import GlotaranProofs.Lemmas.C02BijLinked
 import GlotaranProofs.Lemmas.C02BijKron
+import GlotaranProofs.Lemmas.C02Steps
+import GlotaranProofs.Lemmas.C02Layout
 namespace Glotaran.C02
 open Glotaran.LinAlg
 
@@ -510,5 +512,180 @@ example :
   refine ⟨by decide +kernel, ⟨by decide, ?_⟩, by decide⟩
   show _ ∧ _
   exact ⟨by decide, by decide⟩
+
+/-! ### the pipeline as the SOURCE has it now (regenerated table `Generated.table`, GlotaranModel/Generated/C02Steps.lean)
+
+`Steps.interp…` execute the table the translator read off glotaran/optimization/{matrix,estimation,data}_provider.py,
+optimization_group.py and optimizer.calculate_penalty with the operations of this model.  The theorems below say that this
+is the hand-written pipeline the theorems above are about — for every input.  When the source reorders the steps, changes an
+operand (another weight column, another matrix, the data without the weight …) or does something the translator cannot read,
+the table changes / contains `untranslatable`, and these theorems stop compiling. -/
+
+/-- the loop over the megacomplexes (scale in place, then combine with the accumulated matrix on the left) -/
+theorem generated_megacomplexes_eq_model (mcs : List McOut) :
+    Steps.interpMcs Generated.table.mc mcs = datasetMatrix mcs :=
+  Steps.interpMcs_generated mcs
+
+/-- the data the solver sees: a copy of the dataset's data, multiplied in place by the weight -/
+theorem generated_data_eq_model (d : Dataset) :
+    Steps.interpData Generated.table.data d = some d.weightedData :=
+  Steps.interpData_generated d
+
+/-- **Unlinked groups: the per-index problems of the source are those of the model** — dataset scale → one container per
+    index → relations → constraints → rows × weight[:, i]; solver called with container `i`, data column `i`, the labels of
+    the dataset matrix and axis value `i`. -/
+theorem generated_pipeline_eq_model_unlinked (mi : ModelItems) (d : Dataset) :
+    Steps.interpUnlinked Generated.table mi d = unlinkedProblems mi d :=
+  Steps.interpUnlinked_generated mi d
+
+/-- **Linked groups**: members in dataset order, each sliced at its own index, stacked with the dataset scales → relations →
+    constraints → rows × aligned weight (own weight column / ones; none when no member or no dataset is weighted); aligned
+    data = stacked weighted data columns. -/
+theorem generated_pipeline_eq_model_linked (mi : ModelItems) (g : Group) :
+    Steps.interpLinked Generated.table mi g = linkedProblems mi g :=
+  Steps.interpLinked_generated mi g
+
+/-- **Full models**: kron(global matrix, matrix) → rows × global-major flattened weight; global-major flattened weighted data. -/
+theorem generated_pipeline_eq_model_full (d : Dataset) :
+    Steps.interpFull Generated.table d = fullModelProblem d :=
+  Steps.interpFull_generated d
+
+/-- **Assembly of a group's penalty vector** (`estimate` + `get_full_penalty`): penalties cleared once, appended once per
+    dataset; residuals dataset by dataset, index by index; then the penalties. -/
+theorem generated_assembly_eq_model (mi : ModelItems) (g : Group) :
+    Steps.interpGroup Generated.table mi g = groupPenalty mi g :=
+  Steps.interpGroup_generated mi g
+
+/-- `Optimizer.calculate_penalty`: the groups' vectors in group order -/
+theorem generated_objective_eq_model (mi : ModelItems) (gs : List Group) :
+    Steps.interpObjective Generated.table mi gs = objective mi gs :=
+  Steps.interpObjective_generated mi gs
+
+/-- `objective_append` re-checked against the source's table -/
+theorem source_objective_append (mi : ModelItems) (g₁ g₂ : List Group) :
+    Steps.interpObjective Generated.table mi (g₁ ++ g₂) =
+      (match Steps.interpObjective Generated.table mi g₁, Steps.interpObjective Generated.table mi g₂ with
+       | some a, some b => some (a ++ b)
+       | _, _ => none) := by
+  simp only [generated_objective_eq_model]
+  exact objective_append mi g₁ g₂
+
+/-- what the source's unlinked pipeline hands to the solver at index `i` is the matrix reduced by relations THEN
+    constraints (so `reduced_problem_equiv` applies to it) -/
+theorem source_reduction_is_relations_then_constraints (mi : ModelItems) (d : Dataset) (ps : List IndexProblem)
+    (h : Steps.interpUnlinked Generated.table mi d = some ps) (hw : d.weight = none) (i : Nat) (hi : i < ps.length) :
+    ∃ lm, datasetMatrix d.mcs = some lm ∧
+      ps[i].reduced = reduceAt mi (d.globalAxis.getD i 0)
+        ((slices ⟨lm.labels, lm.body.scale (d.scale.getD 1)⟩ d.nGlobal).getD i default) := by
+  rw [generated_pipeline_eq_model_unlinked] at h
+  unfold unlinkedProblems at h
+  cases hm : datasetMatrix d.mcs with
+  | none => simp [hm] at h
+  | some lm =>
+    refine ⟨lm, rfl, ?_⟩
+    simp only [hm, hw, Option.some.injEq] at h
+    subst h
+    simp
+
+/-- three data points × two indices, two compartments, `s2 = 2·s1`, `s1` constrained to zero on index 1, weighted -/
+private def stepsDataset : Dataset :=
+  { label := "a", globalAxis := [0, 1], data := [[1, 2], [3, 4], [5, 7]], weight := some [[1, 2], [1, 1], [3, 1]],
+    scale := some 2, mcs := [⟨⟨["s1", "s2"], .d2 [[1, 0], [1, 1], [1, 2]]⟩, some 3⟩], gmcs := [] }
+
+private def stepsItems : ModelItems :=
+  { relations := [⟨"s1", "s2", 2, none⟩], constraints := [⟨false, "s1", some [⟨.fin 1, .fin 1⟩]⟩] }
+
+/-- the regenerated table on a concrete dataset (non-vacuity): two problems, the second one with no column left -/
+example :
+    (Steps.interpUnlinked Generated.table stepsItems stepsDataset).map (fun ps => ps.map (fun p => (p.reduced.labels, p.reduced.m, p.data))) =
+      some [(["s1"], [[6], [18], [90]], [1, 3, 15]), ([], [[], [], []], [4, 4, 7])] := by
+  decide +kernel
+
+private def view (r : Option (List IndexProblem)) : Option (List (List String × List String × Mat × Vec × Rat)) :=
+  r.map (fun ps => ps.map (fun p => (p.fullLabels, p.reduced.labels, p.reduced.m, p.data, p.x)))
+
+set_option synthInstance.maxSize 1024 in
+/-- **The interpreter is not blind**: on this dataset a table with constraints before relations, one that takes the weight
+    column of the neighbouring index, one that scales after the reduction… give other problems than the model's, and a table
+    that multiplies the columns by the weight or contains an untranslatable step gives none. -/
+theorem interpreter_rejects_reordered_tables :
+    view (Steps.interpUnlinked { Generated.table with prepared := [.scaleDataset, .slice, .constraints, .relations, .weightRows .own] } stepsItems stepsDataset)
+      ≠ view (unlinkedProblems stepsItems stepsDataset) ∧
+    view (Steps.interpUnlinked { Generated.table with prepared := [.scaleDataset, .slice, .relations, .constraints, .weightRows (.shifted (-1))] } stepsItems stepsDataset)
+      ≠ view (unlinkedProblems stepsItems stepsDataset) ∧
+    view (Steps.interpUnlinked { Generated.table with prepared := [.scaleDataset, .slice, .relations, .constraints] } stepsItems stepsDataset)
+      ≠ view (unlinkedProblems stepsItems stepsDataset) ∧
+    view (Steps.interpUnlinked { Generated.table with data := [.fromDataset true] } stepsItems stepsDataset) ≠ view (unlinkedProblems stepsItems stepsDataset) ∧
+    view (Steps.interpUnlinked { Generated.table with data := [.fromDataset false, .mulWeight true] } stepsItems stepsDataset) = none ∧
+    view (Steps.interpUnlinked { Generated.table with unlinkedCall := ⟨.own, .fixed 0, .datasetMatrix, .own⟩ } stepsItems stepsDataset)
+      ≠ view (unlinkedProblems stepsItems stepsDataset) ∧
+    view (Steps.interpUnlinked { Generated.table with prepared := [.scaleDataset, .slice, .relations, .constraints, .weightCols .own] } stepsItems stepsDataset) = none ∧
+    view (Steps.interpUnlinked { Generated.table with prepared := [.slice, .relations, .untranslatable "?", .weightRows .own] } stepsItems stepsDataset) = none ∧
+    Steps.interpGroupUnlinked { Generated.table with unlinkedEstimate := [.clearPenalties, .perDataset [.clearOwn, .solve, .appendPenalties, .appendPenalties]] }
+        { stepsItems with penalties := [⟨"s1", [⟨.ninf, .pinf⟩], "s2", [⟨.ninf, .pinf⟩], 1, 1⟩] }
+        { linked := false, solver := .vp, tol := 0, method := .nearest, datasets := [stepsDataset] }
+      ≠ groupPenalty { stepsItems with penalties := [⟨"s1", [⟨.ninf, .pinf⟩], "s2", [⟨.ninf, .pinf⟩], 1, 1⟩] }
+        { linked := false, solver := .vp, tol := 0, method := .nearest, datasets := [stepsDataset] } := by
+  refine ⟨?_, ?_, ?_, ?_, ?_, ?_, ?_, ?_, ?_⟩ <;> decide +kernel
+
+/-! ### layout glue of the data provider and the `link_clp: null` decision (GlotaranModel/C02Layout.lean) -/
+
+theorem explicit_link_wins (b : Bool) (g : List Layout.DsDesc) (all : List (List String)) :
+    Layout.resolveLink (some b) g all = b := Layout.explicit_link_wins b g all
+
+theorem auto_link_iff (g : List Layout.DsDesc) (all : List (List String)) :
+    Layout.resolveLink none g all = true ↔
+      (∀ d ∈ g, d.hasGlobal = false) ∧
+      ∃ md, (∃ d ∈ g, d.modelDim = md) ∧ (∀ d ∈ g, d.modelDim = md) ∧
+        ∃ c, (∃ cs ∈ all, c ∈ cs) ∧ c ≠ md ∧ ∀ c', (∃ cs ∈ all, c' ∈ cs) → c' ≠ md → c' = c :=
+  Layout.auto_link_iff g all
+
+theorem infer_global_first (md : String) (dims : List String) (gd : String) :
+    Layout.inferGlobalDimension md dims = some gd ↔
+      ∃ pre post, dims = pre ++ gd :: post ∧ gd ≠ md ∧ ∀ d ∈ pre, d = md :=
+  Layout.infer_global_first md dims gd
+
+theorem data_orientation_entry (md gd : String) (data : Layout.Var) (nm ng : Nat) (hne : md ≠ gd)
+    (hd : Layout.StoredAs data md gd nm ng) (hng : 0 < ng) :
+    ∃ pd, Layout.layout md data none none = some (pd, none) ∧ Layout.Rect pd nm ng ∧
+      ∀ m g, m < nm → g < ng → Layout.entry pd m g = Layout.isel data md m g :=
+  Layout.data_orientation_entry md gd data nm ng hne hd hng
+
+theorem weight_orientation_follows_own_dims (md gd : String) (data w : Layout.Var) (mw : Option Mat)
+    (nm ng : Nat) (hne : md ≠ gd)
+    (hd : Layout.StoredAs data md gd nm ng) (hw : Layout.StoredAs w md gd nm ng) (hng : 0 < ng) :
+    ∃ pd pw, Layout.layout md data (some w) mw = some (pd, some pw) ∧ Layout.Rect pw nm ng ∧
+      ∀ m g, m < nm → g < ng → Layout.entry pw m g = Layout.isel w md m g :=
+  Layout.weight_orientation_follows_own_dims md gd data w mw nm ng hne hd hw hng
+
+theorem provider_data_entry (md gd : String) (data : Layout.Var) (w : Option Layout.Var) (mw : Option Mat)
+    (nm ng : Nat) (hne : md ≠ gd) (hd : Layout.StoredAs data md gd nm ng)
+    (hw : ∀ wv, w = some wv → Layout.StoredAs wv md gd nm ng) (hmw : ∀ x, mw = some x → Layout.Rect x nm ng)
+    (hng : 0 < ng) :
+    ∃ pd pw, Layout.layout md data w mw = some (pd, pw) ∧ Layout.Rect pd nm ng ∧
+      ∀ m g, m < nm → g < ng → Layout.entry pd m g = Layout.isel data md m g *
+        (match w, mw with
+         | some wv, _ => Layout.isel wv md m g
+         | none, some x => Layout.entry x m g
+         | none, none => 1) :=
+  Layout.provider_data_entry md gd data w mw nm ng hne hd hw hmw hng
+
+theorem dataset_weight_wins (md : String) (data w : Layout.Var) (mw : Option Mat) :
+    Layout.layout md data (some w) mw = Layout.layout md data (some w) none :=
+  Layout.dataset_weight_wins md data w mw
+
+theorem model_weight_without_dataset_weight (md : String) (data : Layout.Var) (mw : Option Mat)
+    (r : Mat × Option Mat) (h : Layout.layout md data none mw = some r) : r.2 = mw :=
+  Layout.model_weight_without_dataset_weight md data mw r h
+
+theorem layout_invariant (md gd : String) (d₁ d₂ : Layout.Var) (w₁ w₂ : Option Layout.Var) (mw : Option Mat)
+    (nm ng : Nat) (hne : md ≠ gd) (hng : 0 < ng)
+    (hd₁ : Layout.StoredAs d₁ md gd nm ng) (hd₂ : Layout.StoredAs d₂ md gd nm ng)
+    (hd : ∀ m g, m < nm → g < ng → Layout.isel d₁ md m g = Layout.isel d₂ md m g)
+    (hw : (w₁ = none ∧ w₂ = none) ∨ ∃ a b, w₁ = some a ∧ w₂ = some b ∧
+      Layout.StoredAs a md gd nm ng ∧ Layout.StoredAs b md gd nm ng ∧
+      ∀ m g, m < nm → g < ng → Layout.isel a md m g = Layout.isel b md m g) :
+    Layout.layout md d₁ w₁ mw = Layout.layout md d₂ w₂ mw :=
+  Layout.layout_invariant md gd d₁ d₂ w₁ w₂ mw nm ng hne hng hd₁ hd₂ hd hw
 
 end Glotaran.C02
